@@ -482,7 +482,7 @@ func main() {
 		res.Count(k, nt)
 	}
 	rd := vh.NewRand(o.Seed)
-	n := o.Pick(500, 30000)
+	n := o.Pick(500, 10000)
 	for i := 0; i < n; i++ {
 		h := genHistory(rd, res)
 		nt := d.runHistory(h, "generated", cases)
